@@ -188,7 +188,8 @@ def renderTrace : Option Trace → List Char
   | none => []
   | some t => unlines t.lines
 
+/-- the head line makes the compiler's `CRASH_REGEX` fire -/
 def WFTrace (c : Compiler) (t : Trace) : Prop :=
-  lineCrash c t.head = true ∧ ∀ l ∈ t.lines, l.contains '\n' = false
+  crashSearch c (t.head ++ ['\n']) = true
 
 end Heph.Diag
